@@ -37,7 +37,7 @@ def run_checks(patch, props):
         return {"error": "does not apply to /repo: " + o}
     try:
         for p in props:
-            code, out = sh(f"{VERIF}/check {p}")
+            code, out = sh(f"{VERIF}/check {p}", env=dict(os.environ, VERIF_NO_EVIDENCE="1"))
             rules = sorted({l.split()[1] for l in out.splitlines() if l.startswith("/") and len(l.split()) > 2 and l.split()[1].startswith("R")})
             res[p] = {"exit": code, "rules": rules, "violations": [l for l in out.splitlines() if l.startswith("/")][:4]}
     finally:
